@@ -822,6 +822,9 @@ Op Gen::polygonOp(int fn, int maxCells) {
         re = r.uniform(3, 10);
     else
         re = r.uniform(10, 40);
+    // the large size classes must actually be large: most of their polygons use (half to all of) the radius the
+    // cell budget allows, instead of the 40 edge lengths at which the ordinary classes stop
+    if (maxCells >= 20000 && r.chance(0.8)) re = maxRe * r.uniform(0.5, 1.0);
     if (re > maxRe) re = maxRe;
     double R = re * edgeLenRads(res);
     if (R > 1.0) R = 1.0;
@@ -1017,8 +1020,8 @@ Op Gen::c17OpFor(int fn) {
             int maxCells = 300;
             double u = r.unit();
             if (u > 0.75) maxCells = 3000;
-            if (u > 0.97) maxCells = 30000;
-            if (boost && u > 0.985) maxCells = 200000;
+            if (u > 0.985) maxCells = 60000;   // (scratch arrays above the 32 768-entry mark in every run)
+            if (boost && u > 0.99) maxCells = 200000;
             // size estimates in the millions (multi-megabyte scratch arrays): rare, but present in both tiers
             if (u > (boost ? 0.994 : 0.998)) maxCells = boost ? 2000000 : 300000;
             return polygonOp(fn, maxCells);
